@@ -243,16 +243,37 @@ impl Resolver {
 //@   in Resolver
 //@   mode assumed
 //@ end
-//@ fn sylt-compiler/src/name_resolution.rs ty
+//@ fn sylt-compiler/src/name_resolution.rs type_vec
 //@   in Resolver
-//@   mode assumed
+//@   props C07
+//@   attr #[verifier::exec_allows_no_decreases_clause]
+//@   attr #[verifier::loop_isolation(false)]
 //@   ret r
 //@   spec
-        requires self.inv(),
-        // assumed: user types name declared variables (ty_assignable, proved, is what it calls) and a
-        // `Resolved` type carries one of the seven primitive run-time types (all parse_type produces)
-        ensures r is Ok ==> rt_up(r->Ok_0, self.variables@.len() as int),
+        requires self.inv(), //# C07 type_vec.pre.ids_in_range
+            forall|i: int| 0 <= i < parser_tys@.len() ==> sylt_parser::pt_ok(#[trigger] parser_tys@[i]), //# C07 type_vec.pre.written_types_are_translatable
+        ensures r is Ok ==> forall|i: int| 0 <= i < r->Ok_0@.len() ==> rt_up(#[trigger] r->Ok_0@[i], self.variables@.len() as int), //# C07 type_vec.resolved_types_are_translatable
 //@   endspec
+//@   loop 1 binder it
+            invariant
+                it.seq().len() == parser_tys@.len(), forall|k: int| 0 <= k < parser_tys@.len() ==> *(#[trigger] it.seq()[k]) == parser_tys@[k], //# - type_vec.loop1.aux1
+                forall|i: int| 0 <= i < tys@.len() ==> rt_up(#[trigger] tys@[i], self.variables@.len() as int), //# C07 type_vec.loop1.so_far_translatable
+//@   endloop
+//@ end
+//@ fn sylt-compiler/src/name_resolution.rs ty
+//@   in Resolver
+//@   props C07
+//@   attr #[verifier::exec_allows_no_decreases_clause]
+//@   ret r
+//@   spec
+        requires self.inv(), //# C07 ty.pre.ids_in_range
+            sylt_parser::pt_ok(*ty), //# C07 ty.pre.written_type_is_translatable
+        ensures r is Ok ==> rt_up(r->Ok_0, self.variables@.len() as int), //# C07 ty.resolved_type_is_translatable
+//@   endspec
+//@   ghost entry
+        let ghost n = self.variables@.len() as int;
+        broadcast use group_rt_up;
+//@   endghost
 //@ end
     #[verifier::external_body]
     fn opaque_fields(&self, f: &HashMap<Identifier, ParserType>) -> ResolveResult<HashMap<String, (Span, Type)>> { unimplemented!() }
